@@ -825,20 +825,20 @@ def main(argv=None):
             for f in sorted(os.listdir(corpus)):
                 rp = json.load(open(os.path.join(corpus, f)))
                 {"heap": heap_cases, "frame": frame_cases, "arith": arith_cases}[rp.get("kind", "heap")].append(rp["case"])
-        n_heap = 14 if quick else 160
+        n_heap = 30 if quick else 200
         for i in range(n_heap):
             for op in ("copy", "deepcopy", "pickle"):
                 heap_cases.append(gen_case(rng, op, small=(i % 3 == 0)))
-        for i in range(10 if quick else 120):
+        for i in range(20 if quick else 150):
             heap_cases.append(gen_case(rng, "rcopy", small=(i % 2 == 0)))
             heap_cases.append(gen_case(rng, "scopy", small=(i % 2 == 0)))
-        for i in range(45 if quick else 900):
+        for i in range(110 if quick else 1200):
             c = gen_case(rng, "frame", small=(i % 3 == 0))
             c["how"] = ["copy", "copy", "deepcopy", "pickle"][i % 4]
             c["side"] = "copy" if i % 2 == 0 else "orig"
             c["edits"] = gen_edits(rng, c, rng.randrange(4, 11 if quick else 25))
             frame_cases.append(c)
-        for i in range(60 if quick else 800):
+        for i in range(100 if quick else 1000):
             c = gen_case(rng, "arith", small=True)
             ids = [r["id"] for r in c["net"]["rxns"]]
             c["r1"], c["r2"] = rng.choice(ids), rng.choice(ids)
